@@ -228,6 +228,17 @@ def judge (which : Which) (scn : SysCommon.Scn) (cfg : Cfg) (st : JStep) (pre : 
             match findCond po.conds "Available" with
             | some c => if c.status != "True" || c.obsGen != po.gen then return some s!"bad available-trusts-stale-or-failing-phase-report {po.name}"
             | none => return some s!"bad available-without-phase-report {po.name}"
+    -- the pass that creates a phase object reports it: from that moment the phase controller rolls the
+    -- phase's objects out under the phase object's control, and the NEXT revision can only take them
+    -- over if status.remotePhases of this revision names the phase object (an in-process phase's
+    -- objects are controlled by the ObjectSet itself and need no such entry)
+    if quiet st then
+      for pe in out.phaseEvents do
+        let toks := pe.splitOn " "
+        if toks.getD 0 "" == "C" && toks.getD 2 "" == "ok" then
+          let nm := ((toks.getD 1 "").splitOn "/").getLastD ""
+          if !(out.setEvents.any fun se => sOk se && sName se == o.name && (sRp se).any (·.startsWith (nm ++ ":"))) then
+            return some s!"bad created-phase-object-not-reported {nm} (no status update of this pass lists it in remotePhases)"
     -- "realised through exactly one ObjectSetPhase that … exists from rollout until teardown" is what
     -- adoption decisions of the NEXT revision rest on (`isControlledByPreviousRevision` reads
     -- status.remotePhases of the previous revision): a status update never drops a phase object that
